@@ -199,6 +199,15 @@ class ProgGen:
             if self.has("destructure") and rng.random() < 0.15:
                 self.use("destructure")
                 tail = leaf()
+                if self.has("dotcall") and prefix == "A" and depth == 0:
+                    # a tail parameter that can take surplus call arguments: a list
+                    types[tail[1]] = "ilist"
+                    tail = ("leaf", tail[1], "ilist")
+            elif self.has("dotcall") and prefix == "A" and depth == 0 and rng.random() < 0.25:
+                self.use("destructure")
+                tail = leaf()
+                types[tail[1]] = "ilist"
+                tail = ("leaf", tail[1], "ilist")
             return ("plist", items, tail)
 
         shape = build(n, 0)
@@ -291,6 +300,13 @@ class ProgGen:
                 return S(rng.choice(cs)[0])
             return self.lit(ty)
         d = depth - 1
+        if self.has("dense") and self.fns and rng.random() < 0.3:
+            # dense stratum: many calls (of inline functions in particular) and lets
+            c = self.call(sc, ty, d)
+            if c is not None:
+                return c
+        if self.has("dense") and self.has("lets") and rng.random() < 0.12:
+            return self.letform(sc, ty, d)
         r = rng.random()
         # shared forms
         if r < 0.10:
@@ -506,10 +522,21 @@ class ProgGen:
             return res
         items = [arg(x) for x in shape[1]]
         if shape[2] is not None:
+            if self.has("dotcall") and (not self.has("rest") or rng.random() < 0.5):
+                # surplus positional arguments become the dotted tail parameter
+                self.use("dotcall")
+                extra = []
+                if shape[2][0] == "leaf" and shape[2][2] in ("ilist", "any"):
+                    extra = [self.expr(sc, "int", d) for _ in range(rng.choice([0, 1, 1, 2, 2, 3]))]
+                return L(S(f["name"]), *items, *extra)
             if self.has("rest") and not self.classic:
                 self.use("rest")
                 return L(S(f["name"]), *items, S("&rest"), arg(shape[2]))
             return None
+        if self.has("dotcall") and rng.random() < 0.08:
+            # a surplus positional argument (ignored by a proper parameter list)
+            self.use("dotcall")
+            return L(S(f["name"]), *items, self.expr(sc, "int", d))
         if self.has("rest") and not self.classic and len(items) >= 2 and rng.random() < 0.2:
             self.use("rest")
             k = rng.randint(1, len(items) - 1)
@@ -533,7 +560,19 @@ class ProgGen:
         pat, types, _, shape = self.pattern(rng.randint(1, 4), prefix="A")
         self.force_capture = False
         ret = rng.choice(["int", "int", "bytes", "ilist", "any"])
-        body = self.expr(Scope(types), ret, rng.randint(1, 3))
+        body = self.expr(Scope(types), ret, rng.randint(1, 2) if self.has("dense") else rng.randint(1, 3))
+        if self.has("dotcall") and shape[2] is not None and rng.random() < 0.6:
+            # use the tail parameter
+            t = S(shape[2][1])
+            first = L(S("if"), t, L(S("f"), t), I(0))
+            if ret == "int":
+                body = L(S("+"), body, first, L(S("if"), t, L(S("if"), L(S("r"), t), I(100), I(10)), I(0)))
+            elif ret == "bytes":
+                body = L(S("concat"), body, L(S("if"), t, L(S("if"), L(S("r"), t), ("str", b"2"), ("str", b"1")), ("str", b"0")))
+            elif ret == "ilist":
+                body = L(S("c"), first, body)
+            else:
+                body = L(S("c"), body, t)
         caps = [n for n, t in types.items() if t == "any" and ("(@ " + n + " ") in text(pat)]
         forced = self.has("captures") and "(@ " in text(pat) and getattr(self, "forced_now", False)
         if caps and self.has("lets") and not self.classic and (forced or rng.random() < 0.5):
@@ -653,8 +692,13 @@ class ProgGen:
         if self.has("macros") and rng.random() < 0.3:
             helpers.append(self.make_macro())
         nf = rng.randint(0, 3)
+        if self.has("dense"):
+            nf = rng.randint(2, 6)
         for _ in range(nf):
             r = rng.random()
+            if self.has("dense") and self.has("inlines") and rng.random() < 0.45:
+                helpers.append(self.make_function(True))
+                continue
             if r < 0.25 and self.has("functions"):
                 helpers.append(self.make_recursive())
             elif r < 0.6 and self.has("inlines"):
@@ -664,7 +708,7 @@ class ProgGen:
         if self.has("constants") and self.has("inlines") and rng.random() < 0.25:
             helpers += self.make_constant_chain()
         ret = rng.choice(["int", "int", "bytes", "ilist", "any"])
-        body = self.expr(Scope(types), ret, rng.randint(1, 4))
+        body = self.expr(Scope(types), ret, rng.randint(1, 3) if self.has("dense") else rng.randint(1, 4))
         for f in self.__dict__.get("cap_fns", []):
             c = self.callform(Scope(types), f, 1)      # make sure the capture-and-binding-form function is called
             if c is not None:
